@@ -32,4 +32,24 @@ example : (step [] (run [] Registry.empty sampleHistory)
     (.addCategory ⟨.str 5, some 9, none, true, none, none, none, none, false, false, 0, none⟩)).2 = .error .units := by
   decide +kernel
 
+/-- two databases used alternately: database 1 refuses (5, 3) and builds (5, 4); database 0 the other way round -/
+example : (outputsN (cstep []) (fun _ => CState.fresh Registry.empty) twoDatabases).drop 6
+    = [(1, .error .units), (0, .ok (.ans (.quantity 5 3))), (0, .error .units), (1, .ok (.ans (.quantity 5 4)))] := by
+  decide +kernel
+example : partOf 0 twoDatabases ≠ partOf 1 twoDatabases := by decide +kernel
+example : (runN (cstep []) (fun _ => CState.fresh Registry.empty) twoDatabases 1).memo = [((5, 4), true), ((5, 3), false)] := by
+  decide +kernel
+
+/-- explicit `None` for the exclusivity flags and the caption with `from_category`: copied from the source
+(category 5: min 0 exclusive, caption 7); without `from_category` they stay falsy -/
+example : (step [] (run [] Registry.empty
+      [.addUnitBase (.str 1) 10 (.str 2),
+       .addCategory ⟨.str 5, some 1, none, false, none, some 1, some 0, none, true, false, 7, none⟩])
+    (.addCategoryN ⟨.str 6, none, none, false, none, none, none, none, false, false, 0, some 5⟩ true true true)).2
+    = .ok (.cat ⟨6, 1, none, 2, 1, some 0, none, true, false, 7⟩) := by decide +kernel
+example : (step [] (run [] Registry.empty [.addUnitBase (.str 1) 10 (.str 2)])
+    (.addCategoryN ⟨.str 6, some 1, none, false, none, none, some 0, none, false, false, 0, none⟩ true true true)).2
+    = .ok (.cat ⟨6, 1, none, 2, 0, some 0, none, false, false, titleCaption 6⟩) := by decide +kernel
+example : findUnitCase (run [] Registry.empty sampleHistory) 5 3 = .ok 3 := by decide +kernel
+
 end Barril.Reg
